@@ -33,6 +33,9 @@ Definition chk_C20 (c o : value) : bool :=
   | VL [VI 1; VI enc; a; b] => as_bool enc && veqb a b
   | VL [VI 2; VI enc; a; b] => as_bool enc && veqb a b
   | VL [VI 5; VI calls; VI http; VI live] => (calls =? 0) && (http =? 0) && (live =? 0)
+  | VL [VI 10; VI enc; VI answered; VI calls] =>
+      (* connections accepted before the server stopped listening are served like any other: n = encrypted = answered = calls *)
+      match c with VL [VI 10; VI n] => (enc =? n) && (answered =? n) && (calls =? n) | _ => false end
   | VL [VI 9; VI seen; VI clear; VI tls; VI calls] => (seen =? 0) && (clear =? 0) && (tls =? 1) && (calls =? 1)      (* many connections open at once *)
   | VL [VI 8; VI before; VI clear; VI tls; VI calls] => (clear =? 0) && (tls =? 1) && (calls =? before + 1)      (* configured while already serving *)
   | VL [VI 7; VI reqs; VI calls; VI answered; VI live] => (calls =? reqs) && (answered =? reqs) && (live =? 0)      (* a long life of one server *)
